@@ -17,9 +17,9 @@ type verifStepCfg struct {
 	classes         []stun.MessageClass
 	onlyAuth        bool // only correctly authenticated messages (C03/C20 lemmas)
 	userHandler     bool
-	role            int // 0 case split, 1 controlling, 2 controlled
-	maxPend         int // 0 => 2
-	liteFixed       int // with lite==0: 1 forces a lite agent
+	role            int  // 0 case split, 1 controlling, 2 controlled
+	maxPend         int  // 0 => 2
+	liteFixed       int  // with lite==0: 1 forces a lite agent
 	smallPrio       bool // candidate priorities range over 1..256 instead of all 32 bits
 }
 
@@ -34,25 +34,25 @@ type verifPend struct {
 }
 
 type verifStep struct {
-	w              *verifWorld
-	before, after  verifSnap
-	class          stun.MessageClass
-	method         stun.Method
-	userKind       int // 0 absent 1 correct 2 same length, arbitrary bytes 3 other length
-	username       string
-	keyKind        int // 0 absent 1 local pwd 2 remote pwd 3 other pwd
-	useCand        bool
-	nomKind        int // 0 absent 1 valid (4 bytes) 2 too short
-	nomValue       uint32
-	ctrl           int
-	id             [stun.TransactionIDSize]byte
-	src            netip.AddrPort
-	localIdx       int
-	controlling    bool
-	lite           bool
-	pend           []verifPend
-	prio           uint32
-	selBeforeIdx   int
+	w             *verifWorld
+	before, after verifSnap
+	class         stun.MessageClass
+	method        stun.Method
+	userKind      int // 0 absent 1 correct 2 same length, arbitrary bytes 3 other length
+	username      string
+	keyKind       int // 0 absent 1 local pwd 2 remote pwd 3 other pwd
+	useCand       bool
+	nomKind       int // 0 absent 1 valid (4 bytes) 2 too short
+	nomValue      uint32
+	ctrl          int
+	id            [stun.TransactionIDSize]byte
+	src           netip.AddrPort
+	localIdx      int
+	controlling   bool
+	lite          bool
+	pend          []verifPend
+	prio          uint32
+	selBeforeIdx  int
 }
 
 const verifExpectedUsername = verifLocalUfrag + ":" + verifRemoteUfrag
